@@ -2,6 +2,7 @@ package PKG
 
 import (
 	"context"
+	"os"
 
 	"github.com/bmeg/grip/engine/pipeline"
 	"github.com/bmeg/grip/gdbi"
@@ -11,6 +12,7 @@ import (
 func init() {
 	vHarnesses["VerifH_C07_volume"] = VerifH_C07_volume
 	vHarnesses["VerifH_C07_cancel"] = VerifH_C07_cancel
+	vHarnesses["VerifH_C07_run"] = VerifH_C07_run
 }
 
 // c07Cycle: n vertices on a directed cycle v0 -> v1 -> ... -> v0 (every vertex has
@@ -138,4 +140,71 @@ func VerifH_C07_cancel() {
 		vAssert("C07.cancel.uncancelled-complete", got == full)
 	}
 	vAssert("C07.cancel.no-goroutine-left", vBlockedGoroutines() == 0)
+}
+
+// c07NewManager stands in for engine.NewManager (Badger directories on disk) when
+// pipeline.Run is executed symbolically; natively the real manager is used and
+// the work directory is inspected instead.
+var c07Man *vManager
+
+func c07NewManager(workDir string) gdbi.Manager {
+	c07Man = &vManager{}
+	return c07Man
+}
+
+// VerifH_C07_run: the entry point the server uses (pipeline.Run: Start + Convert +
+// the resource manager). The client reads k rows, goes away (the request context
+// is cancelled) and the handler keeps draining: the result stream must close, the
+// temporary stores must be released (Cleanup), no goroutine may stay blocked, and
+// an uncancelled run delivers every row.
+func VerifH_C07_run() {
+	sizes := []int{3, 45, 260}
+	n := sizes[vChoice("size", vParam("SIZES", 3))] * vParam("NATIVE_SCALE", 1)
+	g := c07Cycle(n)
+	var stmts []*gripql.GraphStatement
+	full := n
+	switch vChoice("program", 3) {
+	case 0:
+		stmts = []*gripql.GraphStatement{sV(), sOut()}
+	case 1: // a step that keeps a temporary store
+		stmts = []*gripql.GraphStatement{sV(), sDistinct("_gid"), sOut()}
+	default:
+		stmts = []*gripql.GraphStatement{sV(), sOut(), sIn()}
+	}
+	pipe, err := g.Compiler().Compile(stmts, nil)
+	vAssert("C07.run.compiles", err == nil)
+	if err != nil {
+		return
+	}
+	workdir := ""
+	if !vSymbolic() {
+		workdir, _ = os.MkdirTemp("", "vcheck-c07-")
+		defer os.RemoveAll(workdir)
+	}
+	k := vChoice("cancelAfter", 4) // rows read before the client goes away (3 = never)
+	ctx, cancel := context.WithCancel(context.Background())
+	c07Man = nil
+	got := 0
+	if k == 0 {
+		cancel()
+	}
+	for range pipeline.Run(ctx, pipe, workdir) {
+		got++
+		if got == k && k < 3 {
+			cancel()
+		}
+	}
+	cancel()
+	vReach("c07.run.closed")
+	vAssert("C07.run.at-most-all-rows", got <= full)
+	if k == 3 {
+		vAssert("C07.run.uncancelled-complete", got == full)
+	}
+	if vSymbolic() {
+		vAssert("C07.run.resources-released", c07Man != nil && c07Man.cleaned)
+	} else {
+		left, _ := os.ReadDir(workdir)
+		vAssert("C07.run.resources-released", len(left) == 0)
+	}
+	vAssert("C07.run.no-goroutine-left", vBlockedGoroutines() <= 0)
 }
